@@ -1,7 +1,7 @@
 /-
   C06 — `<` is a strict total order consistent with `=`, and sorting follows it.
 
-  Property theorems only (helper lemmas: Arrai/C06/{Lemmas,Embed,Clients}.lean).  They are about
+  Property theorems only (helper lemmas: Arrai/C06/{Lemmas,Embed,Clients,Den,Unique}.lean).  They are about
   `Impl.less` / `Impl.equal` of Arrai/C06/Model.lean — the transliteration of every `Less` method of
   /repo/rel as repaired — and hold for ALL representations `Rep` (no well-formedness hypothesis):
   numbers, generic and specialised tuples, `(@neg: x)` wrappers, every set representation, nested.
@@ -13,6 +13,7 @@
   Part 3: the rules before the repairs violate trichotomy (witnesses).
 -/
 import Arrai.C06.Den
+import Arrai.C06.Unique
 import Arrai.Facts.Generated
 
 namespace Arrai.C06.Theorems
@@ -121,17 +122,34 @@ example : nodupNames (.union [.relation ["a", "b"] [[.generic [.num 2, .num 3], 
           (.union [.generic [.array [some (.num 4)] 0], .relation ["b", "a"] [[.num 1, .generic [.num 3, .num 2]]]]) = true := by
   decide
 
-/-- FULL trichotomy with the meaning in the middle (not proved here): for canonical representations — the ones the
-constructors of /repo/rel build (C02: one representation per value, up to enumeration order) — exactly one of
-`a < b`, `den a = den b`, `b < a`.  The missing half, `a < b → den a ≠ den b`, is the uniqueness of canonical
-representations, which is property C02's theorem. -/
-def trichotomy_den_full (Canonical : Rep → Prop) : Prop :=
-  ∀ a b : Rep, Canonical a → Canonical b →
+/-- canonical representations with the same meaning have the same order key (Arrai/C06/Unique.lean: C02's
+`wf_unique`, one layer at a time); with `equal_sound`: on canonical representations `=` is equality of meanings -/
+theorem equal_iff_den (a b : Rep) (ca : Canonical a) (cb : Canonical b) : equal a b = true ↔ den a = den b := by
+  constructor
+  · exact equal_sound a b (canon_nn a ca) (canon_nn b cb)
+  · intro h
+    have := key_complete a ca b cb h
+    simp [equal, K.beq_iff, this]
+
+/-- FULL trichotomy with the meaning in the middle: for canonical representations - the ones the constructors of
+/repo/rel build, `Canonical r` = C02's canonical-form invariant on the translated representation `up r` -
+exactly one of `a < b`, `den a = den b`, `b < a` -/
+theorem trichotomy_den (a b : Rep) (ca : Canonical a) (cb : Canonical b) :
     (less a b = true ∧ den a ≠ den b ∧ less b a = false) ∨
     (less a b = false ∧ den a = den b ∧ less b a = false) ∨
-    (less a b = false ∧ den a ≠ den b ∧ less b a = true)
+    (less a b = false ∧ den a ≠ den b ∧ less b a = true) := by
+  have he := equal_iff_den a b ca cb
+  rcases trichotomy a b with h | h | h
+  · exact Or.inl ⟨h.1, fun e => by rw [he.2 e] at h; exact absurd h.2.1 (by simp), h.2.2⟩
+  · exact Or.inr (Or.inl ⟨h.1, he.1 h.2.1, h.2.2⟩)
+  · exact Or.inr (Or.inr ⟨h.1, fun e => by rw [he.2 e] at h; exact absurd h.2.1 (by simp), h.2.2⟩)
 
-/-- proved half of it: at most one of `a < b`, `b < a`; and if neither, the meanings agree -/
+/-- the hypothesis is satisfiable non-trivially -/
+example : Canonical (.union [.generic [.num 2, .gtuple [], .relation ["b", "a"] [[.num 1, .str [97] 0]]],
+    .array [some (.dict [[.num 1, .num 2, .num 3]]), none, some .true_] 5]) := by
+  unfold Canonical; decide
+
+/-- without canonicity: at most one of `a < b`, `b < a`; and if neither, the meanings agree -/
 theorem trichotomy_den_partial (a b : Rep) (na : nodupNames a = true) (nb : nodupNames b = true) :
     (less a b = true ∧ less b a = false) ∨ (less a b = false ∧ den a = den b ∧ less b a = false) ∨
     (less a b = false ∧ less b a = true) := by
